@@ -57,6 +57,7 @@ type FuncSpec struct {
 	Flags    map[string]string
 	Sites    []*SiteSpec
 	GhostSets []*SiteSpec
+	GhostInits []*SiteSpec // ghost variables (re)initialised at function entry: local protocol flags
 	Line     int
 	File     string
 }
@@ -270,15 +271,27 @@ func (ss *SpecSet) loadFile(path, pkgPath string) error {
 			w2, r2 := splitWord(rest)
 			if w2 != "var" && cur != nil {
 				// function-level ghost update: ghost name = expr (at function exit)
-				j := strings.Index(rest, "=")
+				//                        or:   ghost entry name = expr (at function entry)
+				atEntry := false
+				body := rest
+				if w2 == "entry" {
+					atEntry = true
+					body = r2
+				}
+				j := strings.Index(body, "=")
 				if j < 0 {
 					return fmt.Errorf("%s:%d: ghost update needs '='", path, ln)
 				}
-				c, err := mkClause(strings.TrimSpace(rest[j+1:]), ln)
+				c, err := mkClause(strings.TrimSpace(body[j+1:]), ln)
 				if err != nil {
 					return err
 				}
-				cur.GhostSets = append(cur.GhostSets, &SiteSpec{Kind: "ghost", Ghost: strings.TrimSpace(rest[:j]), C: c})
+				gs := &SiteSpec{Kind: "ghost", Ghost: strings.TrimSpace(body[:j]), C: c}
+				if atEntry {
+					cur.GhostInits = append(cur.GhostInits, gs)
+				} else {
+					cur.GhostSets = append(cur.GhostSets, gs)
+				}
 				continue
 			}
 			if w2 != "var" {
